@@ -54,3 +54,36 @@ Fixpoint kmodel_obs (roles : list role) (s : kstate) (steps : list (label * list
       | None => None
       end
   end.
+
+(* a deterministic scheduler for examples: repeatedly run the lowest-numbered enabled mailbox *)
+Fixpoint first_enabled (l : list actor) (k : nat) : option nat :=
+  match l with
+  | [] => None
+  | a :: t => match a_inflight a with Some _ => Some k | None => first_enabled t (S k) end
+  end.
+Fixpoint drain (roles : list role) (fuel : nat) (s : kstate) : kstate * list (list obs) :=
+  match fuel with
+  | O => (s, [])
+  | S f =>
+      match first_enabled (actors s) 0 with
+      | None => (s, [])
+      | Some u =>
+          match kstep roles s (LRun (Z.of_nat u)) with
+          | Some (s', o) => let '(s'', os) := drain roles f s' in (s'', o :: os)
+          | None => (s, [])
+          end
+      end
+  end.
+(* external labels, each followed by draining to quiescence *)
+Fixpoint play (roles : list role) (s : kstate) (ls : list label) : kstate * list (list obs) :=
+  match ls with
+  | [] => (s, [])
+  | l :: t =>
+      match kstep roles s l with
+      | Some (s1, o) =>
+          let '(s2, os2) := drain roles 200 s1 in
+          let '(s3, os3) := play roles s2 t in (s3, (o :: os2) ++ os3)
+      | None => (s, [])
+      end
+  end.
+Definition quiet (s : kstate) : bool := match first_enabled (actors s) 0 with None => true | Some _ => false end.
